@@ -20,7 +20,7 @@
    contradict itself on committees_at_slot / committee length.
    Every theorem quantifies over ALL duty lists (any slots before, at and after the current one,
    any number of committees and validators per committee, any order), all digests, sizes, targets. *)
-From Verif Require Import Lib.Base Model.C14_Subscriptions Model.C14_Spec Proofs.C14 Check.C14 Proofs.C14_Check Proofs.C14_During.
+From Verif Require Import Lib.Base Model.C14_Subscriptions Model.C14_Spec Proofs.C14 Check.C14 Proofs.C14_Check Proofs.C14_During Model.C14_Reorg Proofs.C14_Reorg.
 From Coq Require Import Sorting.Permutation.
 
 (* ------------------------------------------------------------------------------------------- *)
@@ -605,4 +605,170 @@ Example C14_example_during :
   st_jobs (fst (run ex_pr init (linearise hs))) =
     [ mkJob 72 0 872000 72 9000 40 2001; mkJob 72 1 872000 72 9001 41 2002 ] /\
   st_jobs (fst (run ex_pr init (linearise_snapshot hs))) = [].
+Proof. vm_compute. repeat split; reflexivity. Qed.
+
+(* ------------------------------------------------------------------------------------------- *)
+(* Head events whose duty dependent roots change: the reorganisation path (added after seeded
+   changes C14-9 and C14-10; Model/C14_Reorg.v).  A history is now a list of [ev]s: plain
+   operations ([EOp]) and head events that carry roots of their own with the answers the rest of the
+   world gives afterwards ([EHead ... views]); [expand] is the controller's history of [op]s they
+   amount to, to which every theorem above applies.                                             *)
+
+(* checkEventForReorg, as a statement: the CURRENT duty dependent root is compared only within an
+   epoch (a recorded epoch that is not 0, a head of the same epoch, a recorded root that is not the
+   zero root and differs); the PREVIOUS one within an epoch against the recorded previous root and,
+   on a change of epoch, against the recorded current root. *)
+Theorem C14_reorg_decision :
+  forall rs hepoch prev curr,
+    (snd (reorg_decide rs hepoch prev curr) = true <->
+       r_epoch rs <> 0 /\ hepoch <= r_epoch rs /\ r_cur rs <> 0 /\ r_cur rs <> curr) /\
+    (fst (reorg_decide rs hepoch prev curr) = true <->
+       r_epoch rs <> 0 /\ r_prev rs <> 0 /\
+       (if r_epoch rs <? hepoch then r_cur rs <> prev else r_prev rs <> prev)).
+Proof. intros. split; [apply decide_current|apply decide_previous]. Qed.
+Print Assumptions C14_reorg_decision.
+
+(* The current duty dependent root governs the attester duties of the NEXT epoch: when it changes,
+   the head event is followed by what completes while the re-subscription waits for the beacon node
+   and then by the subscribe of the NEXT epoch with the duties the node answers with now -- to which
+   theorems 5-15 (every future pair subscribed, the specification's flag) and 18/20 (that
+   information decides from then on) apply. *)
+Theorem C14_current_root_change_resubscribes_next_epoch :
+  forall pr rs hslot prev curr views v evs,
+    reorg_decide rs (hslot / spe pr) prev curr = (false, true) ->
+    find_view (wrap64 (hslot / spe pr + 1)) views = Some v -> usable v ->
+    exists rs',
+      expand pr rs (EHead hslot hslot prev curr views :: evs) =
+      OHead hslot hslot :: v_mid v ++
+        OSub (wrap64 (hslot / spe pr + 1)) hslot false (v_duties_fail v) (v_sign_fail v) (v_duties v) ::
+        expand pr rs' evs.
+Proof. exact head_current_root_changed. Qed.
+Print Assumptions C14_current_root_change_resubscribes_next_epoch.
+
+(* ... and the previous duty dependent root those of the CURRENT epoch. *)
+Theorem C14_previous_root_change_resubscribes_current_epoch :
+  forall pr rs hslot prev curr views v evs,
+    reorg_decide rs (hslot / spe pr) prev curr = (true, false) ->
+    find_view (hslot / spe pr) views = Some v -> usable v ->
+    exists rs',
+      expand pr rs (EHead hslot hslot prev curr views :: evs) =
+      OHead hslot hslot :: v_mid v ++
+        OSub (hslot / spe pr) hslot false (v_duties_fail v) (v_sign_fail v) (v_duties v) :: expand pr rs' evs.
+Proof. exact head_previous_root_changed. Qed.
+Print Assumptions C14_previous_root_change_resubscribes_current_epoch.
+
+(* a head event that is not of the current slot, or whose roots continue the recorded ones, is the
+   housekeeping alone *)
+Theorem C14_head_without_root_change_resubscribes_nothing :
+  (forall pr rs hslot cur prev curr views evs, hslot <> cur ->
+     expand pr rs (EHead hslot cur prev curr views :: evs) = OHead hslot cur :: expand pr rs evs) /\
+  (forall pr rs hslot prev curr views evs,
+     reorg_decide rs (hslot / spe pr) prev curr = (false, false) ->
+     expand pr rs (EHead hslot hslot prev curr views :: evs) =
+     OHead hslot hslot :: expand pr (mkR (hslot / spe pr) prev curr) evs).
+Proof. split; [exact expand_head_ignored|exact head_no_root_changed]. Qed.
+Print Assumptions C14_head_without_root_change_resubscribes_nothing.
+
+(* While a refresh is in flight the epoch is never without its information: after the head event
+   (of the epoch itself or of the one before) and whatever completes before the re-subscription
+   stores its result -- attests, head events, subscribes of other epochs -- the information held
+   before is still held. *)
+Theorem C14_info_held_while_refresh_in_flight :
+  forall pr st ep hslot cur mid info,
+    ep + 1 < two64 -> hslot / spe pr <= ep + 1 -> Forall (keeps pr ep) mid ->
+    get_info ep (st_infos st) = Some info ->
+    get_info ep (st_infos (fst (run pr st (OHead hslot cur :: mid)))) = Some info.
+Proof.
+  intros pr st ep hslot cur mid info B H K G. apply info_held_through; [exact B| |exact G].
+  constructor; [apply head_keeps; exact H|exact K].
+Qed.
+Print Assumptions C14_info_held_while_refresh_in_flight.
+
+(* Hence the property for that shape: an attestation of the epoch that completes while the refresh
+   is in flight (after the head event [OHead hslot hslot] and anything else [mid1] that leaves the
+   epoch's information alone, before the re-subscription has returned) sets up exactly one
+   aggregation job for every attested committee with a selected validator of ours, from the duties
+   of the last subscribe. *)
+Theorem C14_attest_while_refresh_in_flight_every_selected_committee_gets_job :
+  forall pr ops1 ep cur1 sign_fail duties ops2 hslot mid1 dslot cur no_acct atts a d,
+    ep + 1 < two64 -> Forall (keeps pr ep) ops2 -> hslot / spe pr <= ep + 1 -> Forall (keeps pr ep) mid1 ->
+    dslot / spe pr = ep -> consistent_duties duties -> digests_ok duties ->
+    In a atts -> cur <= a_slot a ->
+    duty_for (sign_ok_of sign_fail) duties (a_slot a) (a_comm a) d -> selected (agg_target pr) d = true ->
+    (forall d', duty_for (sign_ok_of sign_fail) duties (a_slot a) (a_comm a) d' ->
+                selected (agg_target pr) d' = true -> acct_ok_of no_acct (d_val d') = true) ->
+    let st := fst (run pr init (ops1 ++ OSub ep cur1 false false sign_fail duties :: ops2 ++ OHead hslot hslot :: mid1)) in
+    let r := step pr st (OAtt dslot cur false no_acct atts) in
+    (forall j, In j (st_jobs st) -> In j (st_jobs (fst r))) /\
+    exists j, In j (st_jobs (fst r)) /\ jkey j = akey a /\
+      (forall j', In j' (st_jobs (fst r)) -> jkey j' = akey a -> j' = j) /\
+      j_time j = a_slot a * slot_ms pr + delay_ms pr /\ j_dslot j = a_slot a.
+Proof.
+  intros pr ops1 ep cur1 sign_fail duties ops2 hslot mid1 dslot cur no_acct atts a d B K2 H K1 E C G Ha Hc Hd Hs Hacct st r.
+  assert (K : Forall (keeps pr ep) (ops2 ++ OHead hslot hslot :: mid1)).
+  { apply Forall_app. split; [exact K2|]. constructor; [apply head_keeps; exact H|exact K1]. }
+  destruct (C14_history_every_selected_committee_gets_job pr ops1 ep cur1 sign_fail duties
+              (ops2 ++ OHead hslot hslot :: mid1) dslot cur no_acct atts a d B K E C G Ha Hc Hd Hs Hacct)
+    as (_ & P & j & J1 & J2 & J3 & J4 & J5 & _).
+  split; [exact P|]. exists j. repeat split; assumption.
+Qed.
+Print Assumptions C14_attest_while_refresh_in_flight_every_selected_committee_gets_job.
+
+(* The seeded shapes, refuted.  (a) The epoch's information deleted when the refresh starts
+   ([drop_info]): an attest of the epoch that completes before the re-subscription has returned
+   schedules nothing, whatever was held; witness: validator 7 is the selected aggregator of
+   committee 3 of slot 10, the previous dependent root changes at slot 10, the attestation of slot
+   10 completes while epoch 1 is being re-subscribed -- the code's history makes the job.
+   (b) The current dependent root refreshing the current epoch ([refresh_epochs_same]): the next
+   epoch, whose duties changed, is never among the refreshed ones. *)
+Theorem C14_refresh_dropping_info_refuted :
+  (forall pr st dslot cur attest_fail no_acct atts,
+     fst (step pr (drop_info (dslot / spe pr) st) (OAtt dslot cur attest_fail no_acct atts)) =
+     drop_info (dslot / spe pr) st) /\
+  (let pr := mkParams 12000 8000 8 16 in
+   let d := mkDuty 7 10 3 1 1 0 9 [0; 0; 0; 0; 0; 0; 0; 0] in
+   let d' := mkDuty 8 12 2 1 1 0 11 [0; 0; 0; 0; 0; 0; 0; 0] in
+   let att := OAtt 10 10 false [] [mkAtt 10 3 4] in
+   let evs := [EOp (HOp (OSub 1 8 false false [] [d])); EHead 9 9 5 6 [];
+               EHead 10 10 77 6 [mkView 1 false false false false [] [d'] [att]]] in
+   selected 16 d = true /\
+   expand pr rinit evs = [OSub 1 8 false false [] [d]; OHead 9 9; OHead 10 10; att; OSub 1 10 false false [] [d']] /\
+   st_jobs (fst (run pr init (expand pr rinit evs))) = [mkJob 10 3 128000 10 4 7 9] /\
+   st_jobs (fst (step pr (drop_info 1 (fst (run pr init [OSub 1 8 false false [] [d]; OHead 9 9; OHead 10 10]))) att)) = []).
+Proof.
+  split; [exact dropped_info_schedules_nothing|].
+  vm_compute. repeat split; reflexivity.
+Qed.
+Print Assumptions C14_refresh_dropping_info_refuted.
+
+Theorem C14_current_root_refreshing_current_epoch_refuted :
+  forall pr cur, cur / spe pr + 1 < two64 ->
+    refresh_epochs pr cur (false, true) = [cur / spe pr + 1] /\
+    refresh_epochs_same pr cur (false, true) = [cur / spe pr] /\
+    ~ In (cur / spe pr + 1) (refresh_epochs_same pr cur (false, true)).
+Proof.
+  intros pr cur B. unfold refresh_epochs, refresh_epochs_same, wrap64. cbn [fst snd app].
+  rewrite N.mod_small by exact B. repeat split.
+  intros [H|[]]. rewrite N.add_1_r in H. exact (N.neq_succ_diag_r _ H).
+Qed.
+Print Assumptions C14_current_root_refreshing_current_epoch_refuted.
+
+(* non-vacuity: a current-root change in the second half of epoch 1 re-subscribes epoch 2 with the
+   new duties (the pair of slot 17 is submitted, the information of epoch 2 replaced), a head event
+   of the next epoch whose previous root does not continue the old current root re-subscribes that
+   epoch, and nothing is compared during epoch 0 *)
+Example C14_example_reorg :
+  let pr := mkParams 12000 8000 8 16 in
+  let d_old := mkDuty 7 16 0 1 1 0 9 [0; 0; 0; 0; 0; 0; 0; 0] in
+  let d_new := mkDuty 7 17 2 1 1 0 11 [0; 0; 0; 0; 0; 0; 0; 0] in
+  let v := mkView 2 false false false false [] [d_new] [] in
+  reorg_decide (mkR 1 5 6) 1 5 77 = (false, true) /\
+  reorg_decide (mkR 1 5 6) 2 9 88 = (true, false) /\
+  reorg_decide (mkR 0 5 6) 0 9 88 = (false, false) /\
+  expand pr rinit [EOp (HOp (OSub 2 12 false false [] [d_old])); EHead 12 12 5 6 []; EHead 13 13 5 77 [v]] =
+    [OSub 2 12 false false [] [d_old]; OHead 12 12; OHead 13 13; OSub 2 13 false false [] [d_new]] /\
+  snd (run pr init (expand pr rinit [EOp (HOp (OSub 2 12 false false [] [d_old])); EHead 12 12 5 6 []; EHead 13 13 5 77 [v]])) =
+    [OutSub [[mkSubscription 7 16 0 1 true]] (Some [mkSub 7 16 0 1 1 0 true 9]); OutHead [(2, [mkSub 7 16 0 1 1 0 true 9])];
+     OutHead [(2, [mkSub 7 16 0 1 1 0 true 9])];
+     OutSub [[mkSubscription 7 17 2 1 true]] (Some [mkSub 7 17 2 1 1 0 true 11])].
 Proof. vm_compute. repeat split; reflexivity. Qed.
